@@ -14,7 +14,7 @@ THEOREMS = [
     "Claripy.Props.C01.C01_eval_canonical", "Claripy.Props.C01.C01_fold_sound",
     "Claripy.BV.add_spec", "Claripy.BV.sub_spec", "Claripy.BV.mul_spec", "Claripy.BV.neg_spec", "Claripy.BV.and_spec",
     "Claripy.BV.or_spec", "Claripy.BV.xor_spec", "Claripy.BV.not_spec", "Claripy.BV.shl_spec", "Claripy.BV.lshr_spec",
-    "Claripy.BV.ashr_spec", "Claripy.BV.signed_eq_toInt", "Claripy.BV.udiv_spec", "Claripy.BV.umod_spec",
+    "Claripy.BV.ashr_spec", "Claripy.BV.signed_eq_toInt", "Claripy.BV.udiv_spec", "Claripy.BV.umod_spec", "Claripy.BV.sdiv_spec", "Claripy.BV.smod_spec", "Claripy.BV.sdivCore_eq_tdiv", "Claripy.BV.rotl_spec", "Claripy.BV.rotr_spec",
     "Claripy.BV.zeroExt_spec", "Claripy.BV.signExt_spec", "Claripy.BV.extract_spec_lt", "Claripy.BV.concat2_spec",
     "Claripy.BV.eq_spec", "Claripy.BV.ult_spec", "Claripy.BV.ule_spec", "Claripy.BV.ugt_spec", "Claripy.BV.uge_spec",
     "Claripy.BV.slt_spec", "Claripy.BV.sle_spec", "Claripy.BV.sgt_spec", "Claripy.BV.sge_spec",
